@@ -62,6 +62,8 @@ struct Objects {
     embedded_pairing_lqibe_params_t lp; embedded_pairing_lqibe_id_t lid; embedded_pairing_lqibe_masterkey_t lm;
     embedded_pairing_lqibe_secretkey_t lsk; embedded_pairing_lqibe_ciphertext_t lct;
     int l; bool sig;
+    // the list and message the stored signature was made for (kept so that behaviour after a round trip can be checked)
+    embedded_pairing_wkdibe_attribute_t* at; embedded_pairing_wkdibe_attributelist_t al; embedded_pairing_wkdibe_scalar_t msg;
 };
 
 enum Kind { WPARAMS, WMASTER, WSK, WCT, WSIG, LPARAMS, LID, LMASTER, LSK, LCT, NKIND };
@@ -161,8 +163,7 @@ static bool objects_equal(int kind, const Objects& a, const Objects& b) {
     case WPARAMS: {
         if (a.wp.l != b.wp.l || a.wp.signatures != b.wp.signatures) return false;
         if (!g2eq(a.wp.g, b.wp.g) || !g2eq(a.wp.g1, b.wp.g1) || !g1eq(a.wp.g2, b.wp.g2) || !g1eq(a.wp.g3, b.wp.g3) || !gteq(a.wp.pairing, b.wp.pairing)) return false;
-        // without signature support hsig is the identity (setup writes it, sign and verify multiply it by the message): an equal object has it too
-        if (!g1eq(a.wp.hsig, b.wp.hsig)) return false;
+        if (a.wp.signatures && !g1eq(a.wp.hsig, b.wp.hsig)) return false;       // without signature support: judged by behaviour, see roundtrip_behaves()
         for (int i = 0; i < a.wp.l; i++) if (!g1eq(a.wp.h[i], b.wp.h[i])) return false;
         return true;
     }
@@ -170,7 +171,7 @@ static bool objects_equal(int kind, const Objects& a, const Objects& b) {
     case WSK: {
         if (a.wsk.l != b.wsk.l || a.wsk.signatures != b.wsk.signatures) return false;
         if (!g1eq(a.wsk.a0, b.wsk.a0) || !g2eq(a.wsk.a1, b.wsk.a1)) return false;
-        if (!g1eq(a.wsk.bsig, b.wsk.bsig)) return false;       // likewise bsig: the identity without signature support, and sign uses it
+        if (a.wsk.signatures && !g1eq(a.wsk.bsig, b.wsk.bsig)) return false;
         for (int i = 0; i < a.wsk.l; i++) if (a.wsk.b[i].idx != b.wsk.b[i].idx || !g1eq(a.wsk.b[i].hexp, b.wsk.b[i].hexp)) return false;
         return true;
     }
@@ -183,6 +184,18 @@ static bool objects_equal(int kind, const Objects& a, const Objects& b) {
     case LCT: return g2aeq(a.lct.rp, b.lct.rp);
     }
     return false;
+}
+
+// What a user relies on after a round trip, whatever the object stores in fields it does not marshal: the unmarshalled parameters accept
+// the original signature, and a signature made with the unmarshalled key verifies (with and without signature support).
+static bool roundtrip_behaves(int kind, const Objects& o, const Objects& r) {
+    if (kind == WPARAMS) return embedded_pairing_wkdibe_verify(&r.wp, &o.al, &o.wsig, &o.msg);
+    if (kind == WSK) {
+        embedded_pairing_wkdibe_signature_t sg;
+        embedded_pairing_wkdibe_sign(&sg, &o.wp, &r.wsk, &o.al, &o.msg, rng_cb);
+        return embedded_pairing_wkdibe_verify(&o.wp, &o.al, &sg, &o.msg);
+    }
+    return true;
 }
 
 static void print_elems(int kind, const Objects& o) {
@@ -233,7 +246,7 @@ static void make_objects(Objects& o, int l, bool sig, unsigned long freemask, bo
     embedded_pairing_wkdibe_encrypt(&o.wct, &msg, &o.wp, &al, rng_cb);
     embedded_pairing_wkdibe_scalar_t m; rng_cb(&m, 32);
     embedded_pairing_wkdibe_sign(&o.wsig, &o.wp, &o.wsk, &al, &m, rng_cb);
-    free(at);
+    o.at = at; o.al = al; o.msg = m;
     embedded_pairing_lqibe_setup(&o.lp, &o.lm, rng_cb);
     embedded_pairing_lqibe_idhash_t h; rng_cb(h.hash, sizeof h.hash);
     embedded_pairing_lqibe_compute_id_from_hash(&o.lid, &h);
@@ -243,7 +256,7 @@ static void make_objects(Objects& o, int l, bool sig, unsigned long freemask, bo
     embedded_pairing_lqibe_encrypt(&o.lct, sym, sizeof sym, &o.lp, &o.lid, hash_rec, rng_cb);
 }
 
-static void free_objects(Objects& o) { free(o.wp.h); free(o.wsk.b); o.wp.h = NULL; o.wsk.b = NULL; }
+static void free_objects(Objects& o) { free(o.wp.h); free(o.wsk.b); free(o.at); o.wp.h = NULL; o.wsk.b = NULL; o.at = NULL; }
 
 // ------------------------------------------------------------------ hash callback recorder (C16)
 static uint8_t g_hash_in[2][4096];
@@ -303,13 +316,13 @@ static void cmd_gen(void) {
             Objects r; memset(&r, 0, sizeof r); dirty_objects(r);
             int sl = 0, sl2 = 0;
             int okc = do_unmarshal(kind, r, b1.p, len, c != 0, true, &sl);
-            bool eqc = okc == 1 && objects_equal(kind, o, r);
+            bool eqc = okc == 1 && objects_equal(kind, o, r) && roundtrip_behaves(kind, o, r);
             size_t relen = okc == 1 ? get_len(kind, r, c != 0) : 0;
             bool resame = false;
             if (okc == 1 && relen == len) { Buf b3 = buf_alloc(len); do_marshal(kind, r, b3.p, c != 0); resame = memcmp(b3.p, b1.p, len) == 0; buf_free(b3); }
             Objects u; memset(&u, 0, sizeof u); dirty_objects(u);
             int oku = do_unmarshal(kind, u, b1.p, len, c != 0, false, &sl2);
-            bool equ = oku == 1 && objects_equal(kind, o, u);
+            bool equ = oku == 1 && objects_equal(kind, o, u) && roundtrip_behaves(kind, o, u);
             int slots = kind == WPARAMS ? o.wp.l : (kind == WSK ? o.wsk.l : -3);
             printf("%s kind=%s c=%d len=%zu lenfn=%zu allwritten=%d setlen=%d slots=%d checked=%d equal=%d relen=%zu resame=%d unchecked=%d uequal=%d bytes=",
                    kind == 0 && c == 1 ? "" : "| ", KNAME[kind], c, len, lenfn, (int) allwritten, sl, slots, okc, (int) eqc, relen, (int) resame, oku, (int) equ);
@@ -329,7 +342,7 @@ static void dirty_objects(Objects& o) {
     if (mode == 0) return;                                  // all-zero (as before)
     embedded_pairing_wkdibe_g1_t* h = o.wp.h; embedded_pairing_wkdibe_freeslot_t* b = o.wsk.b;
     memset(&o, mode == 1 ? 0x5a : 0xc3, sizeof o);
-    o.wp.h = h; o.wsk.b = b;
+    o.wp.h = h; o.wsk.b = b; o.at = NULL; memset(&o.al, 0, sizeof o.al);
     o.wp.signatures = mode == 1; o.wsk.signatures = mode != 1; o.sig = false;
     o.wp.l = 7; o.wsk.l = 5; o.l = 0;
     G1Affine& q = *reinterpret_cast<G1Affine*>(&o.lid.q); G1Affine& sq = *reinterpret_cast<G1Affine*>(&o.lsk.sq); G2Affine& rp = *reinterpret_cast<G2Affine*>(&o.lct.rp);
